@@ -187,8 +187,10 @@ def guard_search(g: CFG, target: Node, guard: str, facts: Facts, env: dict | Non
     """DOM: witness path entry -> *target* on which *guard* (an expression over tracked atoms) is NOT known true."""
     gexpr = ast.parse(guard, mode='eval').body
 
+    from .facts import entails
+
     def is_target(n: Node, d: dict) -> bool:
-        return n is target and facts.eval(gexpr, d) is not True
+        return n is target and facts.eval(gexpr, d) is not True and not entails(d, gexpr)
 
     def is_barrier(n: Node, d: dict) -> bool:
         return n is target  # reaching the target with the guard known: fine, do not continue through it
